@@ -237,6 +237,7 @@ class ProgGen:
         self.page_ctx = {}
         self.error_mode = rng.random() < 0.08 if flavour == "slots" else False
         self.default_name = {}
+        self.in_between = 0
 
     def t(self):
         self.tok += 1
@@ -463,12 +464,15 @@ class ProgGen:
         cname = rng.choice(allowed)
         opts = {}
         if self.flavour == "scope":
-            if rng.random() < 0.15:
-                opts["only"] = True
             if rng.random() < 0.4:
                 v = rng.choice(VAR_NAMES)
                 opts["kwargs"] = {v: ["var", v]}
         r = rng.random()
+        if self.flavour == "scope" and rng.random() < 0.15:
+            # `only` is generated on tags without a body: with a body, fill content under django mode + only
+            # is a listed finding (C03-only-flag-hides-outer-variables-from-fill), shown by its witness
+            opts["only"] = True
+            r = 0.0
         body = None
         targets = self.slotnames.get(cname) or SLOT_NAMES
         if r < 0.25:
@@ -525,6 +529,9 @@ class ProgGen:
                         name = ["lit", nm]
                 data_alias = rng.choice(["d", "e"]) if rng.random() < 0.3 else None
                 default_alias = rng.choice(["f", "g"]) if rng.random() < 0.3 else None
+                if self.flavour == "scope" and self.in_between:
+                    # {{ default }} under a with/for between tag and fill: listed finding, shown by its witness
+                    default_alias = None
                 floops = loops + ([site_loop] if site_loop else [])
                 body = self.gen_nodes(budget, depth + 1, in_comp, True, allowed, floops) if rng.random() < 0.9 else []
                 if data_alias:
@@ -548,6 +555,7 @@ class ProgGen:
                 sites.append(["for", var, items, site, inner])
             elif self.flavour == "scope":
                 site = self.newsite()
+                self.in_between += 1
                 if rng.random() < 0.5:
                     var = rng.choice(VAR_NAMES)
                     inner = self.gen_sites(budget, depth + 1, in_comp, allowed, loops, targets, used=used)
@@ -558,6 +566,7 @@ class ProgGen:
                     self.cur_data[lname] = [f"L{site}.{var}#0"]
                     inner = self.gen_sites(budget, depth + 1, in_comp, allowed, loops + [var], targets, used=used)
                     sites.append(["for", var, ["var", lname], site, inner])
+                self.in_between -= 1
         return sites
 
 
